@@ -12,6 +12,31 @@ def simple(mon, config="asan", **kw):
     return [d]
 
 
+def post_C08(stats, tier):
+    """close the per-resolution area sums: sum of cellAreaRads2 (and of the oracle areas) over a whole resolution = 4*pi within 1e-9"""
+    import math
+    out = []
+    Q = float(2 ** 60)
+    for res in range(16):
+        k = "areacount.res%02d" % res
+        if k not in stats:
+            continue
+        n = stats[k]
+        want = 2 + 120 * 7 ** res
+        if n != want:
+            out.append({"kind": "sum-incomplete", "fn": "cellAreaRads2", "key": "areacount%02d" % res,
+                        "detail": "res %d: %d cells contributed to the area sum, expected %d" % (res, n, want)})
+            continue
+        for which in ("lib", "ref"):
+            ssum = stats["areasum_%s_q60.res%02d" % (which, res)] / Q
+            stats["areasum_minus_4pi_%s.res%02d.e-15" % (which, res)] = int(round((ssum - 4 * math.pi) * 1e15))
+            if abs(ssum - 4 * math.pi) > 1e-9:
+                out.append({"kind": "area-sum", "fn": "cellAreaRads2" if which == "lib" else "cellToBoundary", "key": "areasum%s%02d" % (which, res),
+                            "detail": "res %d: sum of %s over all %d cells = %.15g, 4*pi = %.15g" % (
+                                res, "cellAreaRads2" if which == "lib" else "areas enclosed by cellToBoundary", n, ssum, 4 * math.pi)})
+    return out
+
+
 PROPS = {
     "C01": {
         "sources": KIT + ["mon_C01.c"],
@@ -88,6 +113,41 @@ PROPS = {
                 "from a cell of res>0; distinct by hash of (cell, childRes).",
         "require": {"children.cases": 5000, "children.cells": 1000000, "ancestor.pairs": 10000, "errors.rejected": 1000},
         "assumptions": ["reference enumerator equals the documented digit layout"],
+    },
+    "C05": {
+        "sources": KIT + ["mon_C05.c"],
+        "phases": simple("mon_C05.c"),
+        "level": "exploration",
+        "level_text": "Every output of the seven gridDisk-family functions and of areNeighborCells is compared with a breadth-first search over geometric adjacency (cells found by pushing points across each "
+                      "boundary segment, no neighbour table involved): every cell of res 0-3 (quick) / 0-5 (thorough) with k<=3 plus the neighbour predicate on its whole 2-ball and all siblings; every cell "
+                      "within 2 (quick) / 8 (thorough) steps of each pentagon and seam seeds at all 16 resolutions with k<=8; globe-wrapping disks (k=12/25/45 at res 0/1/2); random origins with k<=30. "
+                      "Unsafe variants must fail or be ring-exact. ASan+UBSan, exact-size buffers.",
+        "level_note": "Trusted base: geometric adjacency (vf_kit.c; cross-checked by C08's tiling monitor) and the BFS. Cells within ~1e-7 rad of a pole at res 14-15 are undecided for the oracle and counted, not judged.",
+        "technique": "runtime monitoring: reference-model comparison (BFS on geometry-derived adjacency) of all disk/ring outputs under ASan/UBSan",
+        "evaluations": ["disk.cases", "nbr.cases", "disks.cases"],
+        "rule": "cases: (origin, k) run through all seven disk/ring functions; (origin) neighbour facts + predicate over the 2-ball, siblings and far cells; (3 origins, k) for gridDisksUnsafe. Non-trivial = k>0; "
+                "distinct by hash of (origin, k).",
+        "require": {"disk.cases": 50000, "disk.with_pentagon": 2000, "pred.pairs": 500000, "pred.sibling_pairs": 100000, "unsafe.errors": 1000, "unsafe.successes": 10000, "disk.wrapping": 10, "ring.successes": 10000},
+        "assumptions": ["geometric adjacency is the neighbour relation of the statement (validated by the tiling check of C08)"],
+    },
+    "C08": {
+        "sources": KIT + ["mon_C08.c"],
+        "phases": simple("mon_C08.c"),
+        "post": post_C08,
+        "level": "exploration",
+        "level_text": "For every cell of resolutions 0-5 (quick) / 0-6 (thorough) and for the 3-disks of all pentagons and 1-disks of face-edge / face-centre / pole / antimeridian cells at every finer "
+                      "resolution: vertex count class, counter-clockwise orientation, centre strictly inside, every boundary segment matched reversed within 1e-12 rad by exactly one segment of exactly "
+                      "one geometric neighbour (no gap, no overlap), one connected 1-2 segment stretch per neighbour, cellAreaRads2 vs an independent long-double spherical area (1e-8), unit scaling, and "
+                      "the whole-resolution area sums vs 4*pi (1e-9; res 0-5 quick, 0-7 thorough). ASan+UBSan.",
+        "level_note": "Trusted base: long-double geometry of the oracle; geometric adjacency via latLngToCell (itself judged by C02). Exhaustive only for the coarse resolutions named in the evidence.",
+        "technique": "runtime monitoring: geometric tiling oracle (segment matching between geometric neighbours) and independent spherical-area computation over complete coarse resolutions, under ASan/UBSan",
+        "evaluations": ["cells"],
+        "rule": "a case is one cell: boundary/centre/area checks plus segment matching against its geometric neighbours. Non-trivial = cell whose boundary has distortion vertices "
+                "(7, 8 or 10 vertices) or a pentagon; distinct by cell index. 'segments' counts boundary segments matched.",
+        "require": {"cells": {"quick": 2000000, "thorough": 100000000}, "segments.matched_once": 10000000, "special.cells": 5000, "numverts.10": 12, "numverts.07": 100, "numverts.08": 10},
+        "exhaustive": True,
+        "exhaustive_note": "tiling exhaustive for res 0-5 (quick) / 0-6 (thorough); area sums for res 0-5 / 0-7",
+        "assumptions": ["tolerances 1e-12 rad (shared vertices) from the property; 1e-8 relative (area) and 1e-9 (sum) measured with >100x headroom"],
     },
     "C13": {
         "sources": KIT + ["mon_C13.c"],
